@@ -40,19 +40,25 @@ Definition valid (n k : nat) (idx : list nat) := length idx = k /\ incr idx /\ F
 Definition selections (n k : nat) : list (list nat) :=
   if (k =? 0) || (n <? k) then [] else iter (C n k) n (seq 0 k).
 
-(* --- binom: the multiply/divide loop of util.rs --- *)
+(* --- binom: the multiply/divide loop of util.rs (since fix f71c4f2 over the smaller one of k and n - k) --- *)
 Fixpoint binom_loop (n : nat) (i steps res : nat) : nat :=
   match steps with O => res | S s => binom_loop n (S i) s (res * (n - i) / (S i)) end.
-Definition binom (n k : nat) : nat := if n <? k then 0 else binom_loop n 0 k 1.
+Definition binom (n k : nat) : nat := if n <? k then 0 else binom_loop n 0 (Nat.min k (n - k)) 1.
 
-(* the same loop on N with the 64-bit overflow check a debug build performs (None = arithmetic overflow panic) *)
+(* the same loop with the machine arithmetic of the code: usize = 64 bit, the product in 128 bit, saturation at usize::MAX
+   (None = the 128-bit product overflows: an arithmetic overflow panic of a debug build; impossible for n < 2^64, SelProofs) *)
+Definition MAXU : N := 18446744073709551615.
 Fixpoint binom_loop64 (n : N) (i : N) (steps : nat) (res : N) : option N :=
   match steps with
   | O => Some res
   | S s => let prod := (res * (n - i))%N in
-           if (prod <? 18446744073709551616)%N then binom_loop64 n (N.succ i) s (prod / N.succ i)%N else None
+           if (prod <? 340282366920938463463374607431768211456)%N
+           then let next := (prod / N.succ i)%N in
+                if (MAXU <? next)%N then Some MAXU else binom_loop64 n (N.succ i) s next
+           else None
   end.
-Definition binom64 (n k : N) : option N := if (n <? k)%N then Some 0%N else binom_loop64 n 0%N (N.to_nat k) 1%N.
+Definition binom64 (n k : N) : option N :=
+  if (n <? k)%N then Some 0%N else binom_loop64 n 0%N (N.to_nat (N.min k (n - k))) 1%N.
 
 (* --- the iterator as a state machine: state = the `index` field --- *)
 Definition it_state := option (list nat).
@@ -85,7 +91,7 @@ Fixpoint it_run (fuel n k : nat) (st : it_state) : list (option nat) * list (lis
    SelProofs.it_runN_spec shows it is the image of it_run under N.of_nat) *)
 Fixpoint binom_loopN (n i : N) (steps : nat) (res : N) : N :=
   match steps with O => res | S s => binom_loopN n (N.succ i) s (res * (n - i) / N.succ i)%N end.
-Definition binomN (n k : nat) : N := if n <? k then 0%N else binom_loopN (N.of_nat n) 0%N k 1%N.
+Definition binomN (n k : nat) : N := if n <? k then 0%N else binom_loopN (N.of_nat n) 0%N (Nat.min k (n - k)) 1%N.
 Definition it_hintN (n k : nat) (st : it_state) : option N :=
   match st with
   | Some idx => let r := fold_left N.add (map (fun p => binomN (snd p) (S (fst p))) (combine (seq 0 (length idx)) idx)) 0%N in
@@ -100,3 +106,8 @@ Fixpoint it_runN (fuel n k : nat) (st : it_state) : list (option N) * list (list
            | (st', None) => ([it_hintN n k st; it_hintN n k st'], [])
            end
   end.
+
+(* the same enumeration with the fuel computed in binary arithmetic (C by Pascal's rule takes exponential time when k is close to n);
+   SelProofs.selections_fast_eq: selections_fast = selections.  Used where the model is evaluated on wide instances. *)
+Definition selections_fast (n k : nat) : list (list nat) :=
+  if (k =? 0) || (n <? k) then [] else iter (N.to_nat (binomN n k)) n (seq 0 k).
